@@ -209,6 +209,20 @@ pub fn materialise(root: &Path, w: &World, program: &[u8]) -> std::io::Result<La
             }
         }
     }
+    for (rel, content) in &w.extra_files {
+        // only plain relative paths below cwd
+        if rel.is_empty() || rel.starts_with('/') || rel.split('/').any(|c| c == ".." || c.is_empty()) {
+            continue;
+        }
+        let p = cwd.join(rel);
+        if p.exists() {
+            continue;
+        }
+        if let Some(parent) = p.parent() {
+            let _ = fs::create_dir_all(parent);
+        }
+        let _ = fs::write(&p, content.as_bytes());
+    }
     let mut argv1: Vec<u8> = vec![];
     match w.spelling {
         1 => {
@@ -443,6 +457,8 @@ fn run_inner(cfg: &Config, worker: usize, program: &[u8], w: &World, plan: &Plan
     if w.heap_pad > 0 {
         plan_s.push_str(&format!(";heap={}", w.heap_pad));
     }
+    // the simulated clock and pid are always owned by the simulator
+    plan_s.push_str(&format!(";clock={}:{};pid={}", if w.clock == 0 { 1_700_000_000 } else { w.clock }, if w.clock_step_ms == 0 { 1 } else { w.clock_step_ms }, if w.pid == 0 { 4242 } else { w.pid }));
     let items = plan.encode_items();
     if !items.is_empty() {
         plan_s.push(';');
@@ -503,6 +519,11 @@ fn run_inner(cfg: &Config, worker: usize, program: &[u8], w: &World, plan: &Plan
         push_env("GLIBC_TUNABLES", b"glibc.malloc.mmap_threshold=4096:glibc.malloc.top_pad=1");
         push_env("MALLOC_MMAP_THRESHOLD_", b"4096");
         push_env("MALLOC_ARENA_MAX", b"1");
+    }
+    for (k, v) in &w.extra_env {
+        if !k.is_empty() && !k.contains('=') && !k.starts_with("SEEDSIM_") && k != "LD_PRELOAD" {
+            push_env(k, v.as_bytes());
+        }
     }
     if w.env_pad > 0 {
         push_env("SEEDSIM_PAD", &vec![b'p'; w.env_pad as usize]);
